@@ -488,6 +488,22 @@ class EphemeralHiddenService:
             raise RuntimeError('Failed to remove hidden service: "%s".' % r)
 
 
+def _socksport_address(socks_config):
+    """
+    Internal helper.
+
+    Returns the first part (port, address:port or unix:path) of a
+    SOCKSPort line, without any options that follow it. A unix path
+    containing spaces is written by Tor as unix:"/a path/socket".
+    """
+    socks_config = socks_config.strip()
+    if socks_config.startswith('unix:"'):
+        end = socks_config.find('"', 6)
+        if end > 0:
+            return socks_config[:end + 1]
+    return socks_config.split()[0] if socks_config else socks_config
+
+
 def _endpoint_from_socksport_line(reactor, socks_config):
     """
     Internal helper.
@@ -495,16 +511,15 @@ def _endpoint_from_socksport_line(reactor, socks_config):
     Returns an IStreamClientEndpoint for the given config, which is of
     the same format expected by the SOCKSPort option in Tor.
     """
+    # options like KeepAliveIsolateSOCKSAuth or WorldWritable can be
+    # appended to a SocksPort line...
+    socks_config = _socksport_address(socks_config)
     if socks_config.startswith('unix:'):
-        # XXX wait, can SOCKSPort lines with "unix:/path" still
-        # include options afterwards? What about if the path has a
-        # space in it?
-        return UNIXClientEndpoint(reactor, socks_config[5:])
+        path = socks_config[5:]
+        if len(path) > 1 and path.startswith('"') and path.endswith('"'):
+            path = path[1:-1]
+        return UNIXClientEndpoint(reactor, path)
 
-    # options like KeepAliveIsolateSOCKSAuth can be appended
-    # to a SocksPort line...
-    if ' ' in socks_config:
-        socks_config = socks_config.split()[0]
     if ':' in socks_config:
         host, port = socks_config.split(':', 1)
         port = int(port)
